@@ -10,7 +10,7 @@ void harness::run_case(const eng::Raw& raw, eng::Ctx& ctx)
 	lim.maxStates = ctx.tier() ? 8 : 6;
 	lim.arity3 = true;
 	gen::TACase c = gen::decode_ta(raw, lim, false);
-	const std::string largeTag = gen::enlarge(c, false);
+	const std::string largeTag = gen::enlarge(c, false, 48);
 	if (!largeTag.empty()) ctx.tag(largeTag);
 	const uint32_t flavour = c.header[0] % 6;
 	int n = c.n;
